@@ -112,7 +112,7 @@ def draw_obs(draw, domains, variables, min_size=1, max_size=None):
     vs = sorted(variables)
     sub = draw(st.lists(st.sampled_from(vs), min_size=min_size, max_size=max_size or len(vs), unique=True))
     obs = []
-    for v in sorted(sub):
+    for v in sub:  # drawn order: the observation dict is not necessarily sorted by variable id
         d = domains[v]
         if d[0] == "d":
             obs.append([v, draw(st.integers(0, d[1] - 1))])
